@@ -23,7 +23,13 @@ An *observation* (from rust/harness/src/c18.rs) is
      "results": [[event|None, cycles_executed, driver.clock() afterwards], ...] one per run_for call,
      "budgets": budgets actually used (explicit + tail), "spawn_clock": driver.clock() at spawn, "done": n}
 
-Every event id in a case is unique, so "exactly once / in emission order" is a plain sequence comparison.
+Event ids need not be unique (payload cases let several tasks emit an EQUAL DriverEvent::User id, also within one
+cycle): "every emitted event exactly once / in emission order" is the comparison of the returned sequence with the
+emission sequence, value by value (a multiset per value, in order).
+
+Budgets (and `tail_budget`) range over the whole u64 domain; the reference scheduler computes clock + budget in
+unbounded integers, which equals the driver's saturating sum as long as every wake-up cycle of the case stays below
+2^64 - 1 (generators keep clock0 + all sleeps far below that).
 """
 
 from __future__ import annotations
@@ -404,31 +410,71 @@ def check(case: Dict[str, Any], obs: Dict[str, Any], ref: Optional[Dict[str, Any
     em_vals = [e[0] for e in emitted]
     rt_vals = [e[0] for e in returned]
     em_set = set(em_vals)
+    # Event values need not be unique (several tasks may emit an equal DriverEvent, even within one cycle): the
+    # statement speaks of *emitted events*, i.e. emissions -- "every emitted event exactly once and in emission
+    # order" is the equality of the returned sequence with the emission sequence (a multiset per value, in order).
+    em_count: Dict[int, int] = {}
+    for v in em_vals:
+        em_count[v] = em_count.get(v, 0) + 1
+
+    def ev_where(pos: int) -> str:
+        """where-string for a loss / disorder first seen at emission number `pos`: names equal events when a value
+        that is concerned (emission `pos`, or a value returned less often than emitted by a finished run) was
+        emitted twice within one cycle"""
+        if not _emitters_share_cycle(emitted):
+            return "run_for result"
+        vals = set()
+        if 0 <= pos < len(emitted):
+            vals.add(emitted[pos][0])
+        if complete:
+            left = dict(em_count)
+            for v in rt_vals:
+                left[v] = left.get(v, 0) - 1
+            vals.update(v for v, n in left.items() if n > 0)
+        seen_vc = set()
+        for v, _, c in emitted:
+            if v in vals and (v, c) in seen_vc:
+                return "two emitters of equal events in one cycle"
+            seen_vc.add((v, c))
+        return "two emitters in one cycle"
+
+    def is_subsequence(short: List[int], full: List[int]) -> bool:
+        it = iter(full)
+        return all(any(x == y for y in it) for x in short)
+
     ev_bad = False
     for v in rt_vals:
         if v not in em_set:
             V("events", "run_for result", "returned an event nobody emitted", f"returned {rt_vals}, emitted {em_vals}")
             ev_bad = True
             break
-    if not ev_bad and len(set(rt_vals)) != len(rt_vals):
-        V("events", "run_for result", "an event was returned more than once", f"returned {rt_vals}, emitted {em_vals}")
-        ev_bad = True
+    if not ev_bad:
+        rt_count: Dict[int, int] = {}
+        for v in rt_vals:
+            rt_count[v] = rt_count.get(v, 0) + 1
+            if rt_count[v] > em_count[v]:
+                V("events", "run_for result", "an event was returned more than once" if em_count[v] == 1
+                  else "an event was returned more often than it was emitted",
+                  f"returned {rt_vals}, emitted {em_vals}")
+                ev_bad = True
+                break
     if not ev_bad and rt_vals != em_vals[:len(rt_vals)]:
-        same_cycle = _emitters_share_cycle(emitted)
-        if set(rt_vals) <= em_set and sorted(rt_vals) == sorted(em_vals[:len(rt_vals)]):
-            V("events", "two emitters in one cycle" if same_cycle else "run_for result",
-              "events returned out of emission order", f"returned {rt_vals}, emitted {em_vals}")
+        pos = next(i for i in range(len(rt_vals)) if rt_vals[i] != em_vals[i])
+        # (with unique ids a permutation of the prefix is never a subsequence, so the first test only matters for
+        # equal values: [a, a, b] returned as [a, b] is a loss, not a disorder)
+        if not is_subsequence(rt_vals, em_vals) and sorted(rt_vals) == sorted(em_vals[:len(rt_vals)]):
+            V("events", ev_where(pos), "events returned out of emission order",
+              f"returned {rt_vals}, emitted {em_vals}")
         else:
-            V("events", "two emitters in one cycle" if same_cycle else "run_for result",
-              "an emitted event was skipped (lost)", f"returned {rt_vals}, emitted {em_vals}")
+            V("events", ev_where(pos), "an emitted event was skipped (lost)", f"returned {rt_vals}, emitted {em_vals}")
         ev_bad = True
     if not ev_bad and complete and len(rt_vals) < len(em_vals):
-        V("events", "two emitters in one cycle" if _emitters_share_cycle(emitted) else "run_for result",
-          "an emitted event was never returned (lost)", f"returned {rt_vals}, emitted {em_vals}")
+        V("events", ev_where(len(rt_vals)), "an emitted event was never returned (lost)",
+          f"returned {rt_vals}, emitted {em_vals}")
         ev_bad = True
     if not ev_bad:
-        # causality + 'an event interrupts the run' (emit_event_interrupts_run)
-        em_call = {e[0]: (e[1], e[2]) for e in emitted}
+        # causality + 'an event interrupts the run' (emit_event_interrupts_run); the sequences agree, so the
+        # n-th returned event IS the n-th emission
         n_ret_before = 0
         for k in range(ncalls):
             ev = results[k][0]
@@ -440,7 +486,7 @@ def check(case: Dict[str, Any], obs: Dict[str, Any], ref: Optional[Dict[str, Any
                       f"call {k}: emitted so far {em_vals[:emitted_upto]}, returned so far {rt_vals[:n_ret_before]}")
                     break
                 continue
-            ecall, ecyc = em_call[ev]
+            _, ecall, ecyc = emitted[n_ret_before]
             if ecall > k:
                 V("events", "run_for result", "event returned before it was emitted", f"call {k} returned {ev}")
                 break
@@ -530,6 +576,28 @@ def check(case: Dict[str, Any], obs: Dict[str, Any], ref: Optional[Dict[str, Any
         labels.append("events:>=2-in-one-cycle")
     if emitted:
         labels.append("events:some")
+    if len(em_set) < len(em_vals):
+        seen_vc = set()
+        dup_cycle = False
+        for v, _, c in emitted:
+            if (v, c) in seen_vc:
+                dup_cycle = True
+                break
+            seen_vc.add((v, c))
+        # equal DriverEvent values emitted by different resumptions: within one cycle / only in different cycles
+        labels.append("events:equal-values-in-one-cycle" if dup_cycle else "events:equal-values-in-different-cycles")
+        nt = nt or dup_cycle
+    U64 = 2 ** 64 - 1
+    for k in range(ncalls):
+        if starts[k] > 0 and starts[k] + budgets[k] > U64:
+            # the relative budget reaches beyond the end of virtual time ("unlimited"): clock + budget >= 2^64
+            labels.append("budget:clock+budget>=2^64")
+            if per_call[k]:
+                labels.append("budget:clock+budget>=2^64,tasks-resumed")
+                nt = True
+            break
+    if any(b == U64 for b in budgets):
+        labels.append("budget:u64::MAX")
     kinds = {op_kind(o[0]) for t in tasks for o in t["ops"]}
     for kd in sorted(kinds):
         labels.append("op:" + kd)
